@@ -87,7 +87,7 @@ fn parse_chunk_meta(mut input: &[u8]) -> nom::IResult<&[u8], ChunkMeta<'_>> {
     let s = &mut input;
 
     let size = consume(s, take_till1(|c| c == b';'))?;
-    let (_, size) = map_res(hex_u32, TryInto::try_into)(size)?;
+    let (_, size) = all_consuming(map_res(hex_u32, TryInto::try_into))(size)?;
 
     let signature = consume(s, all_consuming(delimited(tag(b";chunk-signature="), take(64_usize), tag(b"\r\n"))))?;
 
